@@ -166,10 +166,28 @@ func vc15Where(state, body string) string {
 	case st == "chan receive" && strings.Contains(body, "(*Peers).Pop"):
 		return "recv"
 	case st == "sync.Mutex.Lock" || st == "semacquire":
-		if strings.Contains(body, "sync.(*Once)") {
-			return "once"
+		// whose mutex?  The frame that called (*Mutex).Lock tells: sync.Once's own
+		// mutex (a later End caller waiting for the first) or collectLock.
+		lines := strings.Split(body, "\n")
+		for i, ln := range lines {
+			if strings.HasPrefix(ln, "sync.(*Mutex).Lock(") {
+				for _, nx := range lines[i+1:] {
+					if strings.HasPrefix(nx, "\t") {
+						continue
+					}
+					if strings.HasPrefix(nx, "sync.(*Once).") {
+						return "once"
+					}
+					if strings.Contains(nx, "client/lib.(*Peers).") {
+						return "lock"
+					}
+					// some other mutex (e.g. the standard logger's, shared by the
+					// parallel rigs): a short critical section, not a resting place
+					return ""
+				}
+			}
 		}
-		return "lock"
+		return ""
 	case st == "chan receive" || st == "chan send" || st == "select" || st == "sync.Cond.Wait":
 		return "blocked:" + st
 	}
